@@ -6,7 +6,7 @@ import warnings
 
 from .lena_sequence import LenaSequence
 from .sequence import Sequence
-from .exceptions import LenaTypeError
+from .exceptions import LenaKeyError, LenaTypeError
 from .functions import flow_to_iter
 
 
@@ -59,6 +59,13 @@ class Source(LenaSequence):
 
         if len(args) > 1:
             self._tail = Sequence(*(self._data_seq[1:]))
+            # The tail contains no elements that only set static context,
+            # and it has just set its own context to its elements.
+            # Set the context of the complete sequence again.
+            try:
+                self._set_context({})
+            except LenaKeyError:
+                pass
         else:
             self._tail = ()
 
